@@ -189,6 +189,18 @@ theorem handles_fit_int (sc : Scripts) (cmds : List Cmd) (hb : (runCmds sc World
   generalize (runCmds sc World.init cmds).unique = u at *
   wheel_omega
 
+/-- the efuns return `(int) time_left (...)`; the model returns the unbounded value.  **Explicit side condition**
+    under which the C conversion is the identity: the entry's second lies within 2^31 seconds of `current_time`
+    (delays and backlog below 2^31).  `trunc32` is the generated C `(int)` conversion. -/
+theorem time_left_fits_int (sc : Scripts) (cmds : List Cmd) (s : Nat) (p : Int × Call)
+    (hp : p ∈ cum 0 ((runCmds sc World.init cmds).slots s))
+    (hb : -(2147483648 : Int) ≤ p.2.due - (runCmds sc World.init cmds).now ∧
+      p.2.due - (runCmds sc World.init cmds).now < 2147483648) :
+    Gen.C10.trunc32 (timeLeft (runCmds sc World.init cmds) s p.1) = timeLeft (runCmds sc World.init cmds) s p.1 := by
+  rw [time_left_exact sc cmds s p hp]
+  unfold Gen.C10.trunc32
+  omega
+
 /-! ### non-vacuity -/
 
 /-- a script table used by the examples: the callback of (o1, "a") schedules "b" into the slot being swept,
@@ -211,6 +223,14 @@ example : (events (runCmds exScripts World.init exCmds)).filter (fun e => match 
 
 /-- the side condition of `handles_fit_int` is satisfiable on the non-trivial example history -/
 example : (runCmds exScripts World.init exCmds).unique < 2 ^ 31 / N := by decide
+
+/-- the side condition of `time_left_fits_int` holds for the three entries pending before the first sweep of the
+    example history -/
+example : (List.range N).all (fun s => (cum 0 ((runCmds exScripts World.init (exCmds.take 5)).slots s)).all (fun p =>
+    decide (-(2147483648 : Int) ≤ p.2.due - (runCmds exScripts World.init (exCmds.take 5)).now ∧
+      p.2.due - (runCmds exScripts World.init (exCmds.take 5)).now < 2147483648))) = true := by decide
+example : ((List.range N).map (fun s => ((runCmds exScripts World.init (exCmds.take 5)).slots s).length)).sum = 3 := by
+  decide
 
 /-- the oracle is not vacuous: it rejects a late fire, a repeated fire, a wrong answer, a missed call_out -/
 example : judgeEv [.co 0 1 0 5 "a" 37 false none, .tickbegin 9, .fire 9 1 0 "a" none, .fire 9 1 0 "a" none, .tickend 9] ≠ [] := by decide
